@@ -39,6 +39,7 @@ type purgeCase struct {
 	BuildFault  string   `json:"buildfault"`
 	ResumeFault string   `json:"resumefault"`
 	Early       bool     `json:"early"`
+	TouchFault  string   `json:"touchfault"`
 	Between     []string `json:"between"`
 	DeleteFault string   `json:"deletefault"`
 	Visible     []string `json:"visible"`
@@ -359,8 +360,23 @@ func purgeReplay(args []string) error {
 			}
 			r.Steps++
 			gen[b]++
-			if err := fx.upload(stores, b, gen[b]); err != nil {
-				panic(err)
+			ustores := stores
+			if c.TouchFault == "touch1" {
+				// the first refresh of a re-used blob fails once: the upload must still leave every blob it
+				// needs fresh (or report the failure)
+				var uctl *store.Ctl
+				ustores, uctl = e.client()
+				uctl.FaultStore, uctl.FaultOp, uctl.FaultAt = "blob", "touch", 1
+			}
+			if err := fx.upload(ustores, b, gen[b]); err != nil {
+				if c.TouchFault == "touch1" {
+					// reported: the operator uploads again
+					if err2 := fx.upload(stores, b, gen[b]); err2 != nil {
+						panic(err2)
+					}
+				} else {
+					panic(err)
+				}
 			}
 			visible[b] = gen[b]
 		}
